@@ -74,7 +74,7 @@ func (u *Unit) inTree(st *State, rc *replayCtx, v Val, t types.Type, depth int) 
 			arr := ""
 			if a, ok := u.inputArr[x.Blk.S]; ok {
 				arr = a.S
-			} else if r := st.regions[x.Blk.S]; r != nil && r.C.Fn == nil {
+			} else if r := st.regions[x.Blk.S]; r != nil && r.C.Base != "" {
 				arr = r.C.S
 			}
 			return &InTree{Kind: "bytes", GoType: ts, Len: x.Len.S, Off: x.Off.S, Cap: x.Cap.S, Blk: x.Blk.S, Arr: arr}
@@ -99,13 +99,13 @@ func (u *Unit) inTree(st *State, rc *replayCtx, v Val, t types.Type, depth int) 
 			return &InTree{Kind: "strlit", GoType: ts, Term: strconv.Quote(x.Lit)}
 		}
 		arr := ""
-		if x.Arr.Fn == nil {
+		if x.Arr.Base != "" {
 			arr = x.Arr.S
 		}
 		return &InTree{Kind: "str", GoType: ts, Len: x.Len.S, Arr: arr}
 	case ArrV:
 		arr := ""
-		if x.Arr.Fn == nil {
+		if x.Arr.Base != "" {
 			arr = x.Arr.S
 		}
 		return &InTree{Kind: "arr", GoType: ts, N: x.N, Arr: arr}
